@@ -153,6 +153,9 @@ pub struct InterpFacts {
     /// BDF: largest relative miss of the step's polynomial at the accepted points it is built from, when the last
     /// `order` steps were equal in size (-1: not applicable)
     pub hist_err: f64,
+    /// BDF after ModifiedSolution: largest difference (relative to max |y|) between the continuation's first step and the first
+    /// step of a fresh run from the point the callback left (-1: not applicable)
+    pub cont_err: f64,
     pub l_err: f64, // max_i |interp(xold)_i - yold_i| / scale_i
     pub r_err: f64,
     pub finite: bool,
@@ -326,6 +329,8 @@ pub struct RecSolOut<'a, 'b> {
     pub script: Vec<Script>,
     /// accepted points (x, y) since the start / the last ModifiedSolution, oldest first (BDF history fact)
     pub hist: Vec<(f64, Vec<f64>)>,
+    /// BDF: the point a ModifiedSolution callback left the solver at (the continuation is compared with a fresh start)
+    pub after_mod: Option<(f64, Vec<f64>)>,
 }
 
 impl<'a, 'b> SolOut for RecSolOut<'a, 'b> {
@@ -406,7 +411,25 @@ impl<'a, 'b> SolOut for RecSolOut<'a, 'b> {
                     if std::env::var("VERIF_HIST_DEBUG").is_ok() { eprintln!("HIST ord={} err={:e}", q, hist_err); }
                 }
             }
-            InterpFacts { lo, hi, ord, h: hstep, rs_err, hist_err, l_err, r_err, finite }
+            // BDF after ModifiedSolution: the continuation's first step against a fresh start from the point the callback left
+            let mut cont_err = -1.0;
+            if bdf && self.instr.case.mass == "none" {
+                if let Some((xk, yk)) = &self.after_mod {
+                    if (*xk - xold).abs() <= 4.0 * f64::EPSILON * xs {
+                        if let Some((xf, yf)) = bdf_fresh_first_step(self.instr.case, *xk, yk, *x) {
+                            if (xf - *x).abs() <= 4.0 * f64::EPSILON * xs {
+                                let sc = y.iter().chain(yf.iter()).fold(1e-300f64, |a, b| a.max(b.abs()));
+                                cont_err = 0.0;
+                                for i in 0..n {
+                                    let d = (y[i] - yf[i]).abs() / sc;
+                                    if d.is_nan() { if !(y[i].is_nan() && yf[i].is_nan()) { cont_err = f64::INFINITY; } } else if d > cont_err { cont_err = d; }
+                                }
+                            }
+                        }
+                    }
+                }
+            }
+            InterpFacts { lo, hi, ord, h: hstep, rs_err, hist_err, cont_err, l_err, r_err, finite }
         });
         let act = self.script.iter().find(|s| s.k == k).map(|s| s.action.clone());
         let mut ret = ControlFlag::Continue;
@@ -451,6 +474,7 @@ impl<'a, 'b> SolOut for RecSolOut<'a, 'b> {
         self.instr.push(Ev::Cb { k, xold, x: *x, x_in, y: y.to_vec(), interp: facts, ret: rets.to_string() });
         self.yold = y.to_vec();
         if rets == "Modified" { self.hist.clear(); }
+        self.after_mod = if rets == "Modified" && self.instr.case.method == "BDF" { Some((*x, y.to_vec())) } else { None };
         self.hist.push((*x, y.to_vec()));
         if self.hist.len() > 8 { self.hist.remove(0); }
         ret
@@ -594,6 +618,42 @@ fn restart_step(case: &Case, xold: f64, yold: &[f64], x: f64, ts: &[f64]) -> Opt
     if r.ok() == Some(true) && g.steps == 1 && g.out.len() == ts.len() && (g.xs - x).abs() <= 4.0 * f64::EPSILON * x.abs().max(xold.abs()) { Some(g.out) } else { None }
 }
 
+/// BDF restarts its history on ModifiedSolution: the step that follows equals the first step of a fresh BDF run started at the
+/// point the callback left, with the step size that was used.  Returns the fresh run's first accepted point.
+fn bdf_fresh_first_step(case: &Case, xk: f64, yk: &[f64], x: f64) -> Option<(f64, Vec<f64>)> {
+    struct PJ<'a>(&'a Problem, bool);
+    impl<'a> IVP for PJ<'a> {
+        fn ode(&self, t: f64, y: &[f64], d: &mut [f64]) { self.0.f(t, y, d) }
+        fn jac(&self, t: f64, y: &[f64], j: &mut Matrix) {
+            if self.1 { self.0.jac(t, y, j) } else {
+                struct Plain<'b>(&'b Problem);
+                impl<'b> IVP for Plain<'b> { fn ode(&self, t: f64, y: &[f64], d: &mut [f64]) { self.0.f(t, y, d) } }
+                Plain(self.0).jac(t, y, j)
+            }
+        }
+    }
+    struct First { out: Option<(f64, Vec<f64>)> }
+    impl SolOut for First {
+        fn solout(&mut self, xo: f64, xn: &mut f64, y: &mut [f64], _ip: Option<&StepInterpolant<'_>>) -> ControlFlag {
+            if xo == *xn { return ControlFlag::Continue; }
+            self.out = Some((*xn, y.to_vec()));
+            ControlFlag::Interrupt
+        }
+    }
+    let p = PJ(&case.problem, case.jac == "user");
+    let mut g = First { out: None };
+    let h = x - xk;
+    let n = yk.len();
+    let bw = case.problem.bandwidth();
+    let pending = ivp::verif_trace::stop();
+    let r = catch(|| BDF::builder().maybe_max_step(case.max_step).maybe_min_step(case.min_step).first_step(h.abs())
+        .jac_storage(storage(&case.jac_storage, n, bw)).build()
+        .solve(&p, xk, yk, x + 2.0 * h, tol(&case.rtol, case.tol_vec), tol(&case.atol, case.tol_vec), Some(&mut g)).is_ok());
+    ivp::verif_trace::start();
+    for (tag, v) in pending { ivp::verif_trace::emit(tag, v); }
+    if r.ok() == Some(true) { g.out } else { None }
+}
+
 /// Execute one case on the real code.
 pub fn execute(case: &Case, instr: &Instr) -> Outcome {
     let n = case.y0.len();
@@ -619,7 +679,7 @@ pub fn execute(case: &Case, instr: &Instr) -> Outcome {
                 Err(e) => Outcome::Err(err_name(&e)),
             }
         } else {
-            let mut so = RecSolOut { instr, k: 0, yold: Vec::new(), script: case.script.clone(), hist: Vec::new() };
+            let mut so = RecSolOut { instr, k: 0, yold: Vec::new(), script: case.script.clone(), hist: Vec::new(), after_mod: None };
             // low_nosolout: the documented call without a callback
             let mut so_opt: Option<&mut RecSolOut> = if case.low_nosolout { None } else { Some(&mut so) };
             let ms = case.max_steps;
@@ -871,11 +931,12 @@ pub fn trace(case: &Case, instr: &Instr, out: &Outcome) -> Vec<Value> {
                     "lo": tj(f.lo), "hi": tj(f.hi),
                     "b_ok": (f.lo - xold.min(*x_in)).abs() <= ulps(scale.max(f.lo.abs()), 8.0) && (f.hi - xold.max(*x_in)).abs() <= ulps(scale.max(f.hi.abs()), 8.0),
                     "rs_ok": !(f.rs_err > 1e-9) && !(f.hist_err > 1e-9), "rs": f.rs_err >= 0.0 || f.hist_err >= 0.0,
+                    "cont_ok": !(f.cont_err > 1e-12), "cont": f.cont_err >= 0.0,
                     "l_ok": f.l_err <= 1.0 || !f.finite,
                     "r_ok": f.r_err <= 1.0 || !f.finite,
                     "ord": f.ord, "heq": prev_h.map(|p: f64| p.abs().to_bits() == f.h.abs().to_bits()).unwrap_or(false),
                     "lre": [if f.l_err > 0.0 { f.l_err.log10().floor() as i64 } else { -999 }, if f.r_err > 0.0 { f.r_err.log10().floor() as i64 } else { -999 }],
-                    "fin": f.finite})).unwrap_or(json!({"b_ok": true, "rs_ok": true, "rs": false, "l_ok": true, "r_ok": true, "fin": true, "ord": 0, "heq": false}));
+                    "fin": f.finite})).unwrap_or(json!({"b_ok": true, "rs_ok": true, "rs": false, "cont_ok": true, "cont": false, "l_ok": true, "r_ok": true, "fin": true, "ord": 0, "heq": false}));
                 lines.push(json!({"e": "cb", "k": k, "xold": tj(*xold), "x": tj(*x), "xin": tj(*x_in), "d": dg(idx, *x, y), "y": toks(y), "contig": contig,
                                   "fin": y.iter().all(|v| v.is_finite()), "ip": ip, "hasip": interp.is_some(), "ret": ret}));
             }
